@@ -69,6 +69,13 @@ func (m *csMod) initGenesis(e *lib.Env) lib.Outcome {
 	gs := coinswaptypes.GenesisState{Params: csGo(m.p), StandardDenom: "stake", Sequence: 1}
 	return e.Try(func(ctx sdk.Context) error { m.k[e].InitGenesis(ctx, gs); return nil })
 }
+func (m *csMod) genesisStages(e *lib.Env) (int, int) {
+	gs := coinswaptypes.GenesisState{Params: csGo(m.p), StandardDenom: "stake", Sequence: 1}
+	vg, _ := errCode(func() error { return coinswaptypes.ValidateGenesis(gs) })
+	cctx, _ := e.Ctx.CacheContext()
+	sp, _ := errCode(func() error { return m.k[e].SetParams(cctx, gs.Params) })
+	return vg, sp
+}
 func (m *csMod) stored(e *lib.Env) string { return csTerm(m.k[e].GetParams(e.Ctx)) }
 
 var csTokens = []string{"btc", "eth", "usdt"}
